@@ -49,7 +49,9 @@ Fixpoint peval (p : list Q) (x : Q) : Q :=
 Fixpoint pevalM (n : nat) (p : list Q) (A : mat Q) : mat Q :=
   match p with
   | [] => zeroQ
-  | c :: p' => let R := tab 0 n n (fun i j => Qred (pevalM n p' A i j)) in fun i j => c * delta i j + mmulQ n A R i j
+  | c :: p' => let R0 := pevalM n p' A in
+               let R := tab 0 n n (fun i j => Qred (R0 i j)) in
+               fun i j => c * delta i j + mmulQ n A R i j
   end.
 (* the code's formula with exp replaced by the polynomial p *)
 Definition spectral_diag (n : nat) (V : mat Q) (lam : vec Q) (p : list Q) : vec Q :=
